@@ -1223,7 +1223,8 @@ INT_WIDTH = {"int": (32, True), "unsigned int": (32, False), "uint32_t": (32, Fa
 # scoped enums used by members: name -> {constant: value}; filled by the unit from the EnumDecl before translating
 ENUM_TYPES = {}
 # std::vector members read through operator[] (never resized by the translated code)
-VECTOR_T = {"std::vector<arr_real>": "Array (Array α)", "std::vector<int>": "Array Int"}
+VECTOR_T = {"std::vector<arr_real>": "Array (Array α)", "std::vector<int>": "Array Int",
+            "std::vector<base_array<double>>": "Array (Array α)"}
 
 
 def load_enum(tu, name):
@@ -1314,6 +1315,8 @@ class StepTr(Tr):
         self.local_arrays = {}         # array locals of the translated function: C++ name -> (lean name, lean type)
         self.local_const = {}          # … declared const
         self.ptr_locals = {}           # pointer locals `T* p = A.data() + off;`: C++ name -> (array target, lean name of the Int offset)
+        self.vec_locals = {}           # `std::vector<arr_real>` locals: C++ name -> (lean name, lean type, is const)
+        self.fallible_fns = {}         # translated functions that may throw: C++ name -> {canonical signature: lean name}
         self.nonpreserving = set()     # array names assigned as a whole (possibly another length) in the scope being translated
         self.fallible = False          # the translated function returns `Except String …` (a slice conversion may throw)
         self.n_slices = 0
@@ -1409,6 +1412,9 @@ class StepTr(Tr):
         base = unwrap(n["inner"][0])
         if base.get("kind") == "DeclRefExpr" and kind_of_type(qt(base)) == "cx" and n["name"] in ("re", "im"):
             return "%s.%s" % (self.e(base), n["name"])
+        if base.get("kind") == "CXXOperatorCallExpr" and kind_of_type(qt(base)) == "cx" and n["name"] in ("re", "im") and \
+                self.callee_name(base) == "operator[]":
+            return "%s.%s" % (self.e(base), n["name"])          # `x[i].im`: one field of a complex cell read
         raise Unsupported("member access %s on %s" % (n.get("name"), base.get("kind")))
 
     def e_DeclRefExpr(self, n):
@@ -1416,8 +1422,10 @@ class StepTr(Tr):
         name = ref.get("name")
         if ref.get("kind") == "VarDecl" and name in self.scratch:
             return self.mref(self.member_of_obj(n))
-        if ref.get("kind") == "VarDecl" and name in self.local_arrays:
+        if ref.get("kind") in ("VarDecl", "ParmVarDecl") and name in self.local_arrays and name not in self.arrays:
             return self.local_arrays[name][0]
+        if ref.get("kind") == "VarDecl" and name in self.vec_locals and self.vec_locals[name][0] in self.bound:
+            return self.vec_locals[name][0]
         if ref.get("kind") in ("ParmVarDecl", "VarDecl") and name in self.arrays and self.arrays[name][0] in self.bound:
             return self.arrays[name][0]          # a read-only array passed on as a value (`dot(x1, x2)`)
         if ref.get("kind") == "EnumConstantDecl":
@@ -1439,6 +1447,8 @@ class StepTr(Tr):
                 if ref.get("kind") == "VarDecl" and name == "pi" and canon_type(qt(n)) == "const real_t" and dsplib_pi_is_pi():
                     return "Fn.pi"
                 raise Unsupported("reference to `%s`, which is not a local of the translated body" % name)
+            if self.types.get(v) == "Bool" and kind_of_type(qt(n)) == "bool":
+                return "(%s = true)" % v          # a `bool` parameter / local read as a condition
             return v
         raise Unsupported("DeclRefExpr to %s %s" % (ref.get("kind"), name))
 
@@ -1505,6 +1515,16 @@ class StepTr(Tr):
     def e_CXXConstructExpr(self, n):
         args = [a for a in n.get("inner", []) if a.get("kind") != "CXXDefaultArgExpr"]
         ta = canon_type(strip_type(qt(n)))
+        if ta in VECTOR_T and len(args) == 1:
+            ct = canon_type(n.get("ctorType", {}).get("qualType", ""))
+            if re.match(r"void \((const )?std::vector<(base_array<double>|int)> &&?\)( noexcept)?$", ct):
+                a0 = unwrap(args[0])
+                while a0.get("kind") == "ImplicitCastExpr" and a0.get("castKind") == "NoOp":
+                    a0 = unwrap(a0["inner"][0])
+                r_ = self.vec_ref(a0)
+                if r_ is not None:
+                    return self.vec_cur(r_)          # copy / move construction of a std::vector: the same elements
+            raise Unsupported("construction of a std::vector through %s" % ct)
         if ta in ARRAY_REAL_T | ARRAY_CX_T and len(args) == 1:
             el = "double" if ta in ARRAY_REAL_T else "cmplx_t"
             ct = canon_type(n.get("ctorType", {}).get("qualType", ""))
@@ -1545,7 +1565,7 @@ class StepTr(Tr):
                 raise Unsupported("subscript on member %s of type %s" % (m, self.members.get(m, (0, 0, "?"))[2]))
             return ("member", m, n["inner"][2])
         if base.get("kind") == "DeclRefExpr" and base["referencedDecl"].get("name") in self.local_arrays and \
-                base["referencedDecl"].get("kind") == "VarDecl":
+                base["referencedDecl"].get("kind") in ("VarDecl", "ParmVarDecl") and base["referencedDecl"].get("name") not in self.arrays:
             return ("local", base["referencedDecl"]["name"], n["inner"][2])
         if base.get("kind") == "DeclRefExpr" and base["referencedDecl"].get("name") in self.arrays:
             return ("array", base["referencedDecl"]["name"], n["inner"][2])
@@ -1568,17 +1588,46 @@ class StepTr(Tr):
     def arr_default(self, lt):
         return "zeroR" if lt == "Array α" else "zeroC"
 
-    def vec_elem(self, n):
-        """`v[i]` on a `std::vector` member (`std::vector::operator[](size_type)`, no bounds check): lean text or None"""
+    def vec_ref(self, base):
+        """`base` of a `std::vector` type of VECTOR_T: ("member", C++ member) | ("vlocal", C++ local) | None"""
+        bt = canon_type(strip_type(qt(unwrap(base))))
+        if bt not in VECTOR_T:
+            bt = canon_type(strip_type(dqt(unwrap(base))))
+        if bt not in VECTOR_T:
+            return None
+        m = self.member_of_obj(base)
+        if m is not None:
+            if self.members.get(m, (0, ""))[1] != VECTOR_T[bt]:
+                raise Unsupported("std::vector member %s is not in the unit's table with type %s" % (m, VECTOR_T[bt]))
+            return ("member", m, VECTOR_T[bt])
+        b = unwrap(base)
+        if b.get("kind") == "DeclRefExpr" and b.get("referencedDecl", {}).get("kind") == "VarDecl" and \
+                b["referencedDecl"].get("name") in self.vec_locals and self.vec_locals[b["referencedDecl"]["name"]][0] in self.bound:
+            if self.vec_locals[b["referencedDecl"]["name"]][1] != VECTOR_T[bt]:
+                raise Unsupported("std::vector local %s of type %s" % (b["referencedDecl"]["name"], bt))
+            return ("vlocal", b["referencedDecl"]["name"], VECTOR_T[bt])
+        raise Unsupported("subscript on a std::vector that is neither a member of the unit's table nor a local")
+
+    def vec_cur(self, r):
+        return self.mref(r[1]) if r[0] == "member" else self.vec_locals[r[1]][0]
+
+    def vec_set(self, r, val):
+        if r[0] == "member":
+            return self.set_member(r[1], val)
+        v, lt, is_const = self.vec_locals[r[1]]
+        if is_const:
+            raise Unsupported("write to the const std::vector local %s" % r[1])
+        self.note_assigned(v)
+        return "let %s := %s\n" % (v, val)
+
+    def vec_index(self, n):
+        """`v[i]` on a `std::vector` (`std::vector::operator[](size_type)`, no bounds check) -> (vector ref, lean index text) or None"""
         n = unwrap(n)
         if n.get("kind") != "CXXOperatorCallExpr" or self.callee_name(n) != "operator[]":
             return None
-        bt = canon_type(strip_type(qt(unwrap(n["inner"][1]))))
-        if bt not in VECTOR_T:
+        r = self.vec_ref(n["inner"][1])
+        if r is None:
             return None
-        m = self.member_of_obj(n["inner"][1])
-        if m is None or self.members.get(m, (0, ""))[1] != VECTOR_T[bt]:
-            raise Unsupported("subscript on a std::vector that is not a member of the unit's table")
         idx = n["inner"][2]
         while idx.get("kind") in ("ImplicitCastExpr", "ParenExpr") and (idx.get("kind") == "ParenExpr" or idx.get("castKind") in ("IntegralCast", "LValueToRValue", "NoOp")):
             if idx.get("kind") == "ImplicitCastExpr" and idx.get("castKind") == "IntegralCast":
@@ -1591,10 +1640,18 @@ class StepTr(Tr):
             idx = idx["inner"][0]
         if canon_type(strip_type(qt(idx))) != "int":
             raise Unsupported("vector index of type %s" % qt(idx))
-        # an `int` index converted to size_type: a negative one is undefined behaviour (here: the default value)
+        return r, self.e(idx)
+
+    def vec_elem(self, n):
+        """`v[i]` read on a `std::vector` member / local: lean text or None.  An `int` index converted to size_type: a negative one is
+        undefined behaviour (here: the default value)"""
+        vi = self.vec_index(n)
+        if vi is None:
+            return None
+        r, idx = vi
         self.prims.add("ptrGet")
-        dflt = "#[]" if VECTOR_T[bt] == "Array (Array α)" else "(0 : Int)"
-        return "(ptrGet %s %s %s)" % (dflt, self.mref(m), self.e(idx))
+        dflt = "#[]" if r[2] == "Array (Array α)" else "(0 : Int)"
+        return "(ptrGet %s %s %s)" % (dflt, self.vec_cur(r), idx)
 
     def e_CXXOperatorCallExpr(self, n):
         name = self.callee_name(n)
@@ -1605,7 +1662,7 @@ class StepTr(Tr):
             inner_ve = self.vec_elem(n["inner"][1])
             if inner_ve is not None:
                 # `v[k][j]`: base_array::operator[](int) on an element of a vector of arrays
-                lt = VECTOR_T[canon_type(strip_type(qt(unwrap(unwrap(n["inner"][1])["inner"][1]))))]
+                lt = self.vec_ref(unwrap(n["inner"][1])["inner"][1])[2]
                 if lt != "Array (Array α)" or not re.search(r"\((int)\)", qt(unwrap(n["inner"][0]))):
                     raise Unsupported("subscript of a vector element of type %s" % lt)
                 return "(arrGet zeroR %s %s)" % (inner_ve, self.e(n["inner"][2]))
@@ -1732,7 +1789,8 @@ class StepTr(Tr):
             return "%s.2" % r
         if name in ("abs2", "conj") and kind_of_type(qt(unwrap(base))) == "cx":
             return "(Cx.%s %s)" % (name, self.e(base))
-        if name == "size" and not arg_nodes and canon_type(strip_type(qt(unwrap(base)))) in ARRAY_REAL_T | ARRAY_CX_T:
+        if name == "size" and not arg_nodes and (canon_type(strip_type(qt(unwrap(base)))) in ARRAY_REAL_T | ARRAY_CX_T or
+                                                  canon_type(strip_type(dqt(unwrap(base)))) in ARRAY_REAL_T | ARRAY_CX_T):
             # base_array<T>::size() = int(_vec.size()) (PINNED in unit StepsArray)
             self.prims.add("arrSize")
             return "(arrSize %s)" % self.array_value(base)
@@ -1747,11 +1805,17 @@ class StepTr(Tr):
             return self.mref(m)
         b = unwrap(n)
         if b.get("kind") == "DeclRefExpr" and b["referencedDecl"].get("name") in self.local_arrays and \
-                b["referencedDecl"].get("kind") == "VarDecl":
+                b["referencedDecl"].get("kind") in ("VarDecl", "ParmVarDecl"):
             return self.local_arrays[b["referencedDecl"]["name"]][0]
         if b.get("kind") == "DeclRefExpr" and b["referencedDecl"].get("name") in self.arrays and \
                 self.arrays[b["referencedDecl"]["name"]][0] in self.bound:
             return self.arrays[b["referencedDecl"]["name"]][0]
+        bb = b
+        while bb.get("kind") == "ImplicitCastExpr" and bb.get("castKind") == "NoOp":
+            bb = bb["inner"][0]
+        ve = self.vec_elem(bb)
+        if ve is not None and self.vec_index(bb)[0][2] == "Array (Array α)":
+            return ve                      # `v[i]`: an element of a vector of arrays
         raise Unsupported("array expression %s" % b.get("kind"))
 
     def elem_kind(self, m):
@@ -1961,6 +2025,30 @@ class StepTr(Tr):
     def assign(self, lhs, r, whole=False):
         lhs = unwrap(lhs)
         k = lhs.get("kind")
+        if k == "CXXOperatorCallExpr" and self.callee_name(lhs) == "operator[]":
+            vi = self.vec_index(lhs)
+            if vi is not None:
+                # `v[i] = <array>` / `v[i] = <int>` on a std::vector: the element is replaced
+                vr, idx = vi
+                if (vr[2] == "Array (Array α)") != bool(whole):
+                    raise Unsupported("assignment to an element of a %s" % vr[2])
+                self.prims.add("ptrSet")
+                return self.vec_set(vr, "(ptrSet %s %s %s)" % (self.vec_cur(vr), idx, r))
+            vj = self.vec_index(lhs["inner"][1])
+            if vj is not None:
+                # `v[i][k] = e`: base_array::operator[](int) on an element of a vector of arrays
+                vr, idx = vj
+                if vr[2] != "Array (Array α)" or not re.search(r"\((int)\)", qt(unwrap(lhs["inner"][0]))):
+                    raise Unsupported("assignment to a cell of an element of a %s" % vr[2])
+                self.prims.update(("ptrSet", "ptrGet"))
+                cur = self.vec_cur(vr)
+                return self.vec_set(vr, "(ptrSet %s %s (arrSet (ptrGet #[] %s %s) %s %s))" % (cur, idx, cur, idx, self.e(lhs["inner"][2]), r))
+        if k == "DeclRefExpr" and lhs["referencedDecl"].get("kind") == "ParmVarDecl" and whole and \
+                lhs["referencedDecl"].get("name") in self.local_arrays and lhs["referencedDecl"].get("name") not in self.arrays:
+            v = self.local_arrays[lhs["referencedDecl"]["name"]][0]       # a by-value array parameter: a local of the function
+            self.nonpreserving.add(v)
+            self.note_assigned(v)
+            return "let %s := %s\n" % (v, r)
         if k == "DeclRefExpr" and lhs["referencedDecl"].get("kind") == "VarDecl" and self.member_of_obj(lhs) is None:
             if self.loop and lhs["referencedDecl"]["name"] == self.loop["var"]:
                 raise Unsupported("assignment to the loop variable")
@@ -2033,12 +2121,160 @@ class StepTr(Tr):
                 raise Unsupported("write to the input array")
         raise Unsupported("assignment target %s" % k)
 
+    def fallible_call(self, n):
+        """`f(args)` (possibly wrapped in the temporaries of a by-value return) with `f` a translated function that may throw
+        -> lean text of the call (an `Except String …`), or None"""
+        while n.get("kind") in ("MaterializeTemporaryExpr", "CXXBindTemporaryExpr", "ExprWithCleanups") or \
+                (n.get("kind") == "ImplicitCastExpr" and n.get("castKind") == "NoOp") or \
+                (n.get("kind") == "CXXConstructExpr" and len(n.get("inner", [])) == 1 and
+                 re.search(r"&&?\)( noexcept)?$", n.get("ctorType", {}).get("qualType", ""))):
+            n = n["inner"][0]
+        if n.get("kind") != "CallExpr" or self.callee_name(n) not in self.fallible_fns:
+            return None
+        sig = canon_type(qt(unwrap(n["inner"][0])))
+        tab = self.fallible_fns[self.callee_name(n)]
+        if sig not in tab:
+            raise Unsupported("call of %s with signature %s" % (self.callee_name(n), sig))
+        args = []
+        for a in n["inner"][1:]:
+            if a.get("kind") == "CXXDefaultArgExpr":
+                raise Unsupported("call of %s relying on a default argument" % self.callee_name(n))
+            if kind_of_type(qt(a)) == "bool":
+                u = unwrap(a)
+                args.append(("true" if u["value"] else "false") if u.get("kind") == "CXXBoolLiteralExpr" else "(decide %s)" % self.e(a))
+            else:
+                args.append(self.e(a))
+        if self.pre:
+            raise Unsupported("state-changing call in the arguments of %s" % self.callee_name(n))
+        return "(%s %s)" % (tab[sig], " ".join(args))
+
+    def vector_stmt(self, s, cont):
+        """statements on `std::vector` members / locals and statements whose right-hand side is a call that may throw; None = not one"""
+        su = s
+        while su.get("kind") == "ExprWithCleanups" and len(su.get("inner", [])) == 1:
+            su = su["inner"][0]
+        k = su.get("kind")
+        if k == "CXXMemberCallExpr":
+            me = unwrap(su["inner"][0])
+            if me.get("kind") == "MemberExpr" and me.get("name") in ("reserve", "push_back", "emplace_back") and \
+                    canon_type(strip_type(qt(unwrap(me["inner"][0])))) in VECTOR_T:
+                vr = self.vec_ref(me["inner"][0])
+                args = [a for a in su["inner"][1:] if a.get("kind") != "CXXDefaultArgExpr"]
+                if len(args) != 1:
+                    raise Unsupported("%s with %d arguments" % (me["name"], len(args)))
+                if me["name"] == "reserve":
+                    # std::vector::reserve: capacity only — size and elements are unchanged
+                    if kind_of_type(qt(args[0])) != "int" or find_all(args[0], lambda x: x.get("kind") in ("CallExpr", "CXXMemberCallExpr", "CXXOperatorCallExpr")):
+                        raise Unsupported("reserve with a computed argument")
+                    return cont()
+                a0 = args[0]
+                while a0.get("kind") in ("MaterializeTemporaryExpr", "CXXBindTemporaryExpr") or (a0.get("kind") == "ImplicitCastExpr" and a0.get("castKind") == "NoOp"):
+                    a0 = a0["inner"][0]
+                if vr[2] == "Array (Array α)":
+                    val = self.array_value(a0)         # push_back / emplace_back(const arr_real&): a copy of the array is appended
+                else:
+                    if canon_type(strip_type(qt(a0))) != "int":
+                        raise Unsupported("%s of a %s into a std::vector<int>" % (me["name"], qt(a0)))
+                    val = self.e(a0)
+                pre = self.flush()
+                return pre + self.vec_set(vr, "(vecPush %s %s)" % (self.vec_cur(vr), val)) + cont()
+        if k == "CXXOperatorCallExpr" and self.callee_name(su) == "operator=":
+            lhs, rhs = su["inner"][1], su["inner"][2]
+            tl = canon_type(strip_type(qt(lhs)))
+            fc = self.fallible_call(rhs)
+            if fc is not None:
+                self.fallible_ok("call of a function that may throw")
+                self.n_slices += 1
+                vk = "r_%d" % self.n_slices
+                self.bound.add(vk)
+                if tl in VECTOR_T:
+                    vr = self.vec_ref(lhs)
+                    asg = self.vec_set(vr, vk)
+                elif tl in ARRAY_REAL_T | ARRAY_CX_T:
+                    self.prims.add("arrAssign")
+                    asg = self.assign(lhs, vk, whole=True)
+                else:
+                    raise Unsupported("result of a call that may throw assigned to %s" % qt(lhs))
+                return "match %s with\n| .error err => (.error err)\n| .ok %s =>\n%s" % (fc, vk, indent(asg + cont()))
+            if tl in VECTOR_T:
+                vr = self.vec_ref(lhs)
+                r = self.e(rhs)
+                return self.flush() + self.vec_set(vr, r) + cont()
+        if k == "DeclStmt" and len(su["inner"]) == 1 and su["inner"][0].get("kind") == "VarDecl":
+            d = su["inner"][0]
+            td = canon_type(strip_type(qt(d)))
+            if td not in VECTOR_T:
+                td2 = canon_type(strip_type(dqt(d)))
+                td = td2 if td2 in VECTOR_T else td
+            init = [c for c in d.get("inner", []) if c.get("kind") != "FullComment"]
+            fc = self.fallible_call(init[0]) if init else None
+            if td in VECTOR_T:
+                if self.frames or self.in_loop or not init:
+                    raise Unsupported("std::vector local `%s` declared inside a branch / loop or without initialiser" % d["name"])
+                v = self.var(d["name"])
+                if v in self.bound or d["name"] in self.vec_locals:
+                    raise Unsupported("std::vector local `%s` shadows a name in scope" % d["name"])
+                lt = VECTOR_T[td]
+                if fc is not None:
+                    self.fallible_ok("call of a function that may throw")
+                    self.vec_locals[d["name"]] = (v, lt, "const" in qt(d))
+                    self.declare(v, lt)
+                    return "match %s with\n| .error err => (.error err)\n| .ok %s =>\n%s" % (fc, v, indent(cont()))
+                i0 = init[0]
+                while i0.get("kind") in ("ExprWithCleanups", "CXXBindTemporaryExpr", "MaterializeTemporaryExpr") or \
+                        (i0.get("kind") == "CXXConstructExpr" and len(i0.get("inner", [])) == 1 and
+                         re.search(r"&&\)( noexcept)?$", i0.get("ctorType", {}).get("qualType", ""))):
+                    i0 = i0["inner"][0]
+                ct = canon_type(i0.get("ctorType", {}).get("qualType", ""))
+                if i0.get("kind") in ("CXXTemporaryObjectExpr", "CXXConstructExpr") and lt == "Array (Array α)" and \
+                        re.match(r"void \(std::vector::size_type, const std::vector<base_array<double>>::value_type &, const std::vector<base_array<double>>::allocator_type &\)$", ct):
+                    a0, a1 = i0["inner"][0], i0["inner"][1]
+                    if a0.get("kind") == "ImplicitCastExpr" and a0.get("castKind") == "IntegralCast":
+                        a0 = a0["inner"][0]
+                    if canon_type(strip_type(qt(a0))) != "int":
+                        raise Unsupported("std::vector(n, v) with n : %s" % qt(a0))
+                    while a1.get("kind") in ("MaterializeTemporaryExpr", "CXXBindTemporaryExpr") or (a1.get("kind") == "ImplicitCastExpr" and a1.get("castKind") == "NoOp"):
+                        a1 = a1["inner"][0]
+                    if lean_type_of(qt(a1)) != "Array α":
+                        raise Unsupported("std::vector(n, v) with v : %s" % qt(a1))
+                    # std::vector(size_type n, const value_type& v): n copies of v (a negative `int` n converts to a huge size: throws; here empty)
+                    val = "(vecNew %s %s)" % (self.e(a0), self.e(a1))
+                    text = self.flush() + "let %s : %s := %s\n" % (v, lt, val)
+                    self.vec_locals[d["name"]] = (v, lt, "const" in qt(d))
+                    self.declare(v, lt)
+                    return text + cont()
+                raise Unsupported("initialiser of the std::vector local `%s`: %s %s" % (d["name"], i0.get("kind"), ct))
+            if fc is not None and lean_type_of(qt(d)) in ("Array α", "Array (Cx α)"):
+                self.fallible_ok("call of a function that may throw")
+                lt = lean_type_of(qt(d))
+                v = self.var(d["name"])
+                if v in self.bound or d["name"] in self.local_arrays:
+                    raise Unsupported("array local `%s` shadows a name in scope" % d["name"])
+                self.local_arrays[d["name"]] = (v, lt)
+                self.local_const[d["name"]] = "const" in qt(d)
+                self.declare(v, lt)
+                return "match %s with\n| .error err => (.error err)\n| .ok %s =>\n%s" % (fc, v, indent(cont()))
+        if k == "CXXOperatorCallExpr" and self.callee_name(su) == "operator/=" and \
+                canon_type(strip_type(qt(su["inner"][1]))) in ARRAY_REAL_T and kind_of_type(qt(su["inner"][2])) == "real":
+            # `a /= v` on an arr_real: base_array<T>::operator/=(const T2&): `_vec[i] /= rhs` for every i (PINNED in unit StepsArray)
+            if canon_type(qt(unwrap(su["inner"][0]))) != "base_array<double> &(const double &) noexcept":
+                raise Unsupported("operator/= on an array through %s" % qt(unwrap(su["inner"][0])))
+            cur = self.array_value(su["inner"][1])
+            r = self.e(su["inner"][2])
+            self.prims.add("arrDivRR")
+            a = self.assign(su["inner"][1], "(arrDivRR %s %s)" % (cur, r), whole=True)
+            return self.flush_before(a) + cont()
+        return None
+
     def stmts(self, lst, final, throws=False):
         if not lst:
             return final
         s, rest = lst[0], lst[1:]
         k = s.get("kind")
         cont = lambda: self.stmts(rest, final)
+        vs_ = self.vector_stmt(s, cont)
+        if vs_ is not None:
+            return vs_
         if (k == "CXXThrowExpr" or (k == "ExprWithCleanups" and s.get("inner") and s["inner"][0].get("kind") == "CXXThrowExpr")) and \
                 self.fallible and not self.in_loop and self.inner_depth == 0:
             return '(.error "%s")' % self.throw_msg(s)
@@ -2307,6 +2543,13 @@ class StepTr(Tr):
             if nm == "operator=":
                 lhs, rhs = s["inner"][1], s["inner"][2]
                 tl, tr_ = canon_type(strip_type(qt(lhs))), canon_type(strip_type(qt(rhs)))
+                if tl not in ARRAY_REAL_T | ARRAY_CX_T and canon_type(strip_type(dqt(lhs))) in ARRAY_REAL_T | ARRAY_CX_T:
+                    tl = canon_type(strip_type(dqt(lhs)))          # `v[i]` of a std::vector<arr_real>: `value_type`
+                if tr_ not in ARRAY_REAL_T | ARRAY_CX_T and canon_type(strip_type(dqt(rhs))) in ARRAY_REAL_T | ARRAY_CX_T:
+                    tr_ = canon_type(strip_type(dqt(rhs)))
+                same = lambda a, b: (a in ARRAY_REAL_T and b in ARRAY_REAL_T) or (a in ARRAY_CX_T and b in ARRAY_CX_T)
+                if tl in ARRAY_REAL_T | ARRAY_CX_T and same(tl, tr_):
+                    tr_ = tl
                 whole = False
                 if tl in ARRAY_REAL_T | ARRAY_CX_T:
                     # whole-array assignment `A = <array expression>`: the copy or the move assignment of base_array<T>
@@ -2496,6 +2739,11 @@ class StepTr(Tr):
                 m = self.member_of_obj(unwrap(x["inner"][0])["inner"][0]) if unwrap(x["inner"][0]).get("inner") else None
                 if m in self.subobjs and isinstance(self.subobjs[m]["ops"].get(unwrap(x["inner"][0])["name"]), dict):
                     return True
+            if x.get("kind") == "CallExpr" and self.fallible_fns:
+                try:
+                    return self.callee_name(x) in self.fallible_fns
+                except Unsupported:
+                    return False
             return False
         return bool(find_all(n, hit))
 
@@ -4422,6 +4670,8 @@ class CtorTr(StepTr):
         self.subctors = subctors or {}  # canonical C++ type of a sub-object -> dict(lean=…, sig=…, assign=[signatures of operator=])
         self.uses_trunc = False
         self.stmt_hooks = []
+        self.extra_params = []         # functions the constructor calls that stay parameters: (lean name, lean type, doc)
+        self.empty_bases = set()       # canonical names of base classes without data members (default-constructed: nothing to do)
 
     def is_obj(self, n):
         if self.obj_pred is not None:
@@ -4570,6 +4820,11 @@ class CtorTr(StepTr):
             return self.array_init(m, n)
         if lt in [sc["ret"] for sc in self.subctors.values()]:
             return self.subobj_value(n, lt)
+        if lt in ("Array (Array α)", "Array Int"):
+            u = unwrap(n)
+            if u.get("kind") == "CXXConstructExpr" and not u.get("inner") and \
+                    canon_type(u.get("ctorType", {}).get("qualType", "")) in ("void () noexcept", "void ()"):
+                return "#[]"          # std::vector(): empty
         raise Unsupported("initialiser for member %s of type %s" % (m, self.members[m][2]))
 
     def array_init(self, m, n):
@@ -4595,6 +4850,9 @@ class CtorTr(StepTr):
         text = ""
         seen = []
         for ci in [c for c in ctor.get("inner", []) if c.get("kind") == "CXXCtorInitializer"]:
+            if "baseInit" in ci and canon_type(ci["baseInit"].get("qualType", "")) in self.empty_bases and len(ci.get("inner", [])) == 1 and \
+                    ci["inner"][0].get("kind") == "CXXConstructExpr" and not ci["inner"][0].get("inner"):
+                continue              # default construction of a base class without data members (CHECKED by the unit)
             if "anyInit" not in ci:
                 raise Unsupported("base-class / delegating initialiser in the constructor")
             m = ci["anyInit"].get("name")
@@ -4702,7 +4960,10 @@ def gen_ctor(rec, ctor, table, lean, cxx_name, obj_struct, want_sig, doc_extra="
         out.append(struct_text(obj_struct, "ALL data members of `%s` (C++ declarations CHECKED against the translator's table): the object a constructor leaves" % cxx_name,
                                [members[m] for m in order]))
     out += tr.aux_defs
-    extra = ("(eps : α) " if eps.used else "") + ("(truncToInt : α → Int) " if tr.uses_trunc else "")
+    extra = ("(eps : α) " if eps.used else "") + ("(truncToInt : α → Int) " if tr.uses_trunc else "") + \
+        "".join("(%s : %s) " % (nm, ty) for nm, ty, _ in tr.extra_params)
+    for nm, ty, doc in tr.extra_params:
+        doc_extra += "\n`%s` = %s" % (nm, doc)
     label = ctor_label or cxx_name
     if tr.uses_trunc:
         doc_extra += ("\n`truncToInt` = the C++ conversion `real_t -> int` (truncation towards zero; undefined when the value does not fit an `int`).")
@@ -4958,6 +5219,386 @@ def ctors_of_decl(rec, sig):
 
 
 # ------------------------------------------------------------------------------------------
+# unit: CtorFir  (include/dsplib/fir.h: FirFilter<T>::FirFilter(const base_array<T>&), T = real_t and cmplx_t)
+
+
+def fir_table(targ):
+    return {"_h": "base_array<%s>" % targ, "_d": "base_array<%s>" % targ}
+
+
+def gen_ctor_fir():
+    prefetch([(FIR_TU, "FirFilter")])
+    out = [HEADER % "include/dsplib/fir.h (`FirFilter<T>::FirFilter(const base_array<T>& h)`, T = real_t and cmplx_t)",
+           "import DspVerif.Gen.StepsFir\n" + STEPS_HEAD[0], STEPS_HEAD[1]]
+    specs = template_specs(clang_ast(FIR_TU, "FirFilter"), "FirFilter")
+    if sorted(specs) != ["cmplx_t", "double"]:
+        raise Unsupported("FirFilter instantiations found: %s" % sorted(specs))
+    for targ, suffix in (("double", "R"), ("cmplx_t", "C")):
+        tname = "real_t" if targ == "double" else "cmplx_t"
+        cs = ctors_of(specs[targ])
+        if len(cs) != 1:
+            raise Unsupported("FirFilter<%s>: expected exactly one user-written constructor, found %d" % (tname, len(cs)))
+        texts, tr = gen_ctor(specs[targ], cs[0], fir_table(targ), "fir%sCtor" % suffix, "FirFilter<%s>" % tname, "FirFilter%sState" % suffix,
+                             "void (const base_array<%s> &)" % targ, emit_struct=False, pure=True,
+                             doc_extra="\n(`base_array(int n)` with a negative `n` — an EMPTY tap vector — throws `std::length_error` in C++: see `arrNew`.)")
+        out += texts
+    out.append("end Gen\nend Dsp\n")
+    return "\n".join(out)
+
+
+# ------------------------------------------------------------------------------------------
+# unit: CtorDelay  (include/dsplib/delay.h: the two constructors of Delay<T>; lib/hilbert.cpp: the two constructors of HilbertFilter,
+#                   `real_hilbert`; lib/math.cpp: `imag(const arr_cmplx&)`)
+
+CTOR_ARRAY_PINS = {
+    # template<class T2, class R = ResultType<T, T2>> base_array<R> operator*(const T2& rhs) const { auto temp = array_cast<R>(*this); temp *= rhs; return temp; }
+    "operator*(scalar)": ['8b16af5baef10f1e'],
+    # … base_array<R>& operator*=(const T2& rhs) noexcept { static_assert(is_same<T, R>); for (size_t i = 0; i < _vec.size(); ++i) _vec[i] *= rhs; return *this; }
+    "operator*=(scalar)": ['1c662ebbb8065664'],
+}
+
+
+def gen_ctor_delay():
+    prefetch([(DELAY_TU, "Delay"), (DELAY_TU, "HilbertFilter"), (DELAY_TU, "HilbertFilter::HilbertFilter"), (DELAY_TU, "real_hilbert"),
+              (DELAY_TU, "FirType"), ('#include "math.cpp"\n', "dsplib::imag"), (ARR_TU, "base_array::operator*")])
+    has_body = lambda d: any(c.get("kind") == "CompoundStmt" for c in d.get("inner", []))
+    out = [HEADER % "include/dsplib/delay.h (`Delay<T>::Delay(int)`, `Delay<T>::Delay(const base_array<T>&)`, T = real_t and cmplx_t), "
+                    "lib/hilbert.cpp (`HilbertFilter::HilbertFilter(const arr_real&)`, `HilbertFilter::HilbertFilter(int, real_t)`, `real_hilbert`), "
+                    "lib/math.cpp (`imag(const arr_cmplx&)`), include/dsplib/keywords.h (`enum class FirType`), include/dsplib/array.h (`operator*(scalar)` — PINNED)",
+           "import DspVerif.Gen.StepsDelay\nimport DspVerif.Gen.CtorFir\n" + STEPS_HEAD[0], STEPS_HEAD[1]]
+    specs = template_specs(clang_ast(DELAY_TU, "Delay"), "Delay")
+    if sorted(specs) != ["cmplx_t", "double"]:
+        raise Unsupported("Delay instantiations found: %s" % sorted(specs))
+    for targ, suffix in (("double", "R"), ("cmplx_t", "C")):
+        tname = "real_t" if targ == "double" else "cmplx_t"
+        cs = ctors_of(specs[targ])
+        sigs = sorted(canon_type(qt(c)) for c in cs)
+        if sigs != sorted(["void (int)", "void (const dsplib::base_array<%s> &)" % targ.replace("cmplx_t", "cmplx_t")]) and \
+                sigs != sorted(["void (int)", "void (const base_array<%s> &)" % targ]):
+            raise Unsupported("Delay<%s>: constructors found: %s" % (tname, sigs))
+        for c in cs:
+            by_len = canon_type(qt(c)) == "void (int)"
+            texts, tr = gen_ctor(specs[targ], c, {"_buffer": "base_array<%s>" % targ}, "delay%sCtor%s" % (suffix, "Len" if by_len else "Init"),
+                                 "Delay<%s>" % tname, "Delay%sState" % suffix, canon_type(qt(c)), emit_struct=False, pure=True,
+                                 doc_extra="\n(`base_array(int n)` with a negative `n` throws `std::length_error` in C++: see `arrNew`.)" if by_len else "")
+            out += texts
+    # --- enum class FirType
+    vals = load_enum(DELAY_TU, "FirType")
+    out.append("/-! `enum class FirType : int` (values of that type are `Int`s holding the enumerator value) -/\n" +
+               "\n".join("def FirType_%s : Int := %d" % (k, v) for k, v in vals.items()) + "\n")
+    # --- imag(const arr_cmplx&) of lib/math.cpp (translated)
+    fs = [d for d in clang_ast('#include "math.cpp"\n', "dsplib::imag") if d.get("kind") == "FunctionDecl" and d.get("name") == "imag" and has_body(d) and
+          canon_type(qt(d)) == "arr_real (const arr_cmplx &)"]
+    if len(fs) != 1:
+        raise Unsupported("imag(const arr_cmplx&) not found")
+    tr = StepTr(members={}, single=True, user_calls=steps_user_calls(), effect=False)
+    tr.bound = set()
+    pn = params_of(fs[0])[0]["name"]
+    pv = tr.var(pn)
+    tr.arrays[pn] = (pv, "Array (Cx α)")
+    tr.bound.add(pv)
+    tr.decl_order.append(pv)
+    tr.types[pv] = "Array (Cx α)"
+    tr.name_hint = "imagArr"
+    body = tr.stmts([body_of(fs[0])], FALLOFF)
+    if FALLOFF in body or tr.pre or tr.writes or tr.uninit:
+        raise Unsupported("imag(const arr_cmplx&): unexpected shape")
+    out += tr.aux_defs
+    out.append("/-- `arr_real imag(const arr_cmplx& %s)` of lib/math.cpp -/\ndef imagArr (%s : Array (Cx α)) : Array α :=\n%s\n" % (pn, pv, indent(body)))
+    # --- arr_real * int  (PINNED templates of base_array)
+    scalar_tmpl = lambda nm: (lambda d: d.get("kind") == "FunctionTemplateDecl" and d.get("name") == nm and
+                              [canon_type(qt(p_)) for f in d["inner"] if f.get("kind") == "CXXMethodDecl" for p_ in params_of(f)][:1] == ["const T2 &"])
+    pinned(ARR_TU, "base_array::operator*", scalar_tmpl("operator*"), "operator*(scalar)", CTOR_ARRAY_PINS, "base_array<T>::operator*(const T2&)")
+    pinned(ARR_TU, "base_array::operator*", scalar_tmpl("operator*="), "operator*=(scalar)", CTOR_ARRAY_PINS, "base_array<T>::operator*=(const T2&)")
+    out.append("/-- `arr_real * int`: `base_array<T>::operator*(const T2&)` = `array_cast` copy, then `operator*=`: `_vec[i] *= rhs` for every `i`\n"
+               "(PINNED; `double *= int` converts the `int`) -/\n"
+               "def arrMulRI (a : Array α) (k : Int) : Array α := a.map fun v => v * (Fn.ofInt k)\n")
+    # --- real_hilbert(const arr_cmplx& h)  (anonymous namespace of lib/hilbert.cpp)
+    fs = [d for d in clang_ast(DELAY_TU, "real_hilbert") if d.get("kind") == "FunctionDecl" and d.get("name") == "real_hilbert" and has_body(d)]
+    if len(fs) != 1 or canon_type(qt(fs[0])) != "arr_real (const arr_cmplx &)":
+        raise Unsupported("real_hilbert(const arr_cmplx&) not found")
+    calls = steps_user_calls()
+
+    def imag_call(a, n):
+        if canon_type(qt(unwrap(n["inner"][0]))) != "arr_real (const arr_cmplx &)" or len(a) != 1:
+            raise Unsupported("call of imag with signature %s" % qt(unwrap(n["inner"][0])))
+        return "(imagArr %s)" % a[0]
+    calls["imag"] = imag_call
+    tr = StepTr(members={}, single=True, user_calls=calls, effect=False)
+    tr.bound = set()
+    pn = params_of(fs[0])[0]["name"]
+    pv = tr.var(pn)
+    tr.arrays[pn] = (pv, "Array (Cx α)")
+    tr.bound.add(pv)
+    tr.decl_order.append(pv)
+    tr.types[pv] = "Array (Cx α)"
+    tr.name_hint = "hilbertRealHilbert"
+    b = [c for c in body_of(fs[0]).get("inner", [])]
+    if len(b) != 1 or b[0].get("kind") != "ReturnStmt":
+        raise Unsupported("real_hilbert: body is not a single return")
+    ex = b[0]["inner"][0]
+    while ex.get("kind") in ("ExprWithCleanups", "CXXBindTemporaryExpr", "MaterializeTemporaryExpr") or \
+            (ex.get("kind") == "CXXConstructExpr" and len(ex.get("inner", [])) == 1 and lean_type_of(qt(ex)) == "Array α"):
+        ex = ex["inner"][0]
+    if not (ex.get("kind") == "CXXOperatorCallExpr" and tr.callee_name(ex) == "operator*" and len(ex["inner"]) == 3 and
+            canon_type(qt(unwrap(ex["inner"][0]))) == "base_array<double> (const int &) const"):
+        raise Unsupported("real_hilbert: does not return `<arr_real> * <int>`")
+    k_ = ex["inner"][2]
+    while k_.get("kind") in ("MaterializeTemporaryExpr",) or (k_.get("kind") == "ImplicitCastExpr" and k_.get("castKind") == "NoOp"):
+        k_ = k_["inner"][0]
+    a_ = ex["inner"][1]
+    while a_.get("kind") in ("MaterializeTemporaryExpr", "CXXBindTemporaryExpr") or (a_.get("kind") == "ImplicitCastExpr" and a_.get("castKind") == "NoOp"):
+        a_ = a_["inner"][0]
+    if kind_of_type(qt(k_)) != "int" or lean_type_of(qt(a_)) != "Array α":
+        raise Unsupported("real_hilbert: operands of `*` are %s, %s" % (qt(a_), qt(k_)))
+    out.append("/-- `arr_real real_hilbert(const arr_cmplx& %s)` of lib/hilbert.cpp -/\ndef hilbertRealHilbert (%s : Array (Cx α)) : Array α :=\n  (arrMulRI %s %s)\n" % (
+        pn, pv, tr.e(a_), tr.e(k_)))
+    # --- HilbertFilter::HilbertFilter(const arr_real& h)
+    rec = record(clang_ast(DELAY_TU, "HilbertFilter"), "HilbertFilter")
+    cdocs = [d for d in clang_ast(DELAY_TU, "HilbertFilter::HilbertFilter") if d.get("kind") == "CXXConstructorDecl" and has_body(d)]
+    taps = [d for d in cdocs if canon_type(qt(d)) == "void (const arr_real &)"]
+    design = [d for d in cdocs if canon_type(qt(d)) == "void (int, real_t)"]
+    if len(taps) != 1 or len(design) != 1 or len([d for d in cdocs if not d.get("isImplicit")]) != 2:
+        raise Unsupported("HilbertFilter: constructors with a body found: %s" % [canon_type(qt(d)) for d in cdocs])
+    subctors = {}
+    for k in ("FirFilter<real_t>", "FirFilter<double>"):
+        subctors[k] = {"lean": "firRCtor", "sig": "void (const base_array<double> &)", "ret": "FirFilterRState α", "assign": []}
+    for k in ("DelayReal", "Delay<double>", "Delay<real_t>"):
+        subctors[k] = {"lean": "delayRCtorLen", "sig": "void (int)", "ret": "DelayRState α", "assign": []}
+
+    def firtype_call(a, n, holder={}):
+        if canon_type(qt(unwrap(n["inner"][0]))) != "FirType (const arr_real &)" or len(a) != 1:
+            raise Unsupported("call of firtype with signature %s" % qt(unwrap(n["inner"][0])))
+        return "(firtype %s)" % a[0]
+
+    def setup(tr):
+        tr.extra_params.append(("firtype", "Array α → Int", "`FirType firtype(const arr_real&)` of lib/fir.cpp (NOT translated: a parameter; the "
+                                "enumerators are `FirType_*`)"))
+    texts, tr = gen_ctor(rec, taps[0], {"_fir": "FirFilter<real_t>", "_d": "DelayReal"}, "hilbertCtorTaps", "HilbertFilter", "HilbertFilterState",
+                         "void (const arr_real &)", emit_struct=False, subctors=subctors, setup=setup, user_calls={"firtype": firtype_call},
+                         subobj_types={"FirFilter<real_t>": "FirFilterRState α", "DelayReal": "DelayRState α"})
+    out += texts
+    # --- HilbertFilter::HilbertFilter(int flen, real_t tw): delegates to the constructor above
+    decl = ctors_of_decl(rec, "void (int, real_t)")
+    if len(decl) != 1:
+        raise Unsupported("HilbertFilter(int, real_t): declaration not found")
+    dc = design[0]
+    inits = [c for c in dc.get("inner", []) if c.get("kind") == "CXXCtorInitializer"]
+    bodyd = [c for c in body_of(dc).get("inner", []) if c.get("kind") != "NullStmt"]
+    if len(inits) != 1 or "anyInit" in inits[0] or "baseInit" in inits[0] or bodyd:
+        raise Unsupported("HilbertFilter(int, real_t) is not a delegating constructor with an empty body")
+    ce = inits[0]["inner"][0]
+    while ce.get("kind") == "ExprWithCleanups":
+        ce = ce["inner"][0]
+    if not (ce.get("kind") == "CXXConstructExpr" and canon_type(ce.get("ctorType", {}).get("qualType", "")) == "void (const arr_real &)" and
+            canon_type(strip_type(qt(ce))) == "HilbertFilter" and len(ce.get("inner", [])) == 1):
+        raise Unsupported("HilbertFilter(int, real_t) does not delegate to HilbertFilter(const arr_real&)")
+    strip_tmp = lambda x: strip_tmp(x["inner"][0]) if (x.get("kind") in ("MaterializeTemporaryExpr", "CXXBindTemporaryExpr") or
+                                                       (x.get("kind") == "ImplicitCastExpr" and x.get("castKind") == "NoOp")) else x
+    rh = strip_tmp(ce["inner"][0])
+    if not (rh.get("kind") == "CallExpr" and Tr().callee_name(rh) == "real_hilbert" and len(rh["inner"]) == 2):
+        raise Unsupported("HilbertFilter(int, real_t): the taps are not `real_hilbert(…)`")
+    df = strip_tmp(rh["inner"][1])
+    if not (df.get("kind") == "CallExpr" and Tr().callee_name(df) == "design_fir" and len(df["inner"]) == 4 and
+            canon_type(qt(unwrap(df["inner"][0]))) == "arr_cmplx (int, real_t, real_t)"):
+        raise Unsupported("HilbertFilter(int, real_t): the argument of real_hilbert is not `design_fir(int, real_t, real_t)`")
+    dtr = CtorTr({}, user_calls=steps_user_calls())
+    ps = []
+    for p_ in params_of(dc):
+        v = dtr.var(p_["name"])
+        dtr.declare(v, lean_type_of(qt(p_)))
+        ps.append((v, lean_type_of(qt(p_))))
+    dargs = [dtr.e(a) for a in df["inner"][1:]]
+    if dtr.pre or dtr.uses_trunc:
+        raise Unsupported("HilbertFilter(int, real_t): arguments of design_fir compute")
+    for p_, dp_ in zip(params_of(dc), params_of(decl[0])):
+        dflt = [c for c in dp_.get("inner", []) if c.get("kind") not in ("FullComment",)]
+        if dflt:
+            out.append("/-- default argument of the parameter `%s` of `HilbertFilter::HilbertFilter(int, real_t)` -/\ndef hilbertCtorDesignDefault_%s : %s := %s\n" % (
+                p_["name"], p_["name"], lean_type_of(qt(p_)), CtorTr({}, user_calls=steps_user_calls()).e(dflt[0])))
+    out.append("/-- `HilbertFilter::HilbertFilter(int flen, real_t tw)`: delegates to `HilbertFilter(real_hilbert(HilbertFilter::design_fir(%s)))`.\n"
+               "`designFir` = `HilbertFilter::design_fir(int, real_t, real_t)` (NOT translated: a parameter; `.error` = it throws) -/\n"
+               "def hilbertCtorDesign (firtype : Array α → Int) (designFir : Int → α → α → Except String (Array (Cx α))) %s : Except String (HilbertFilterState α) :=\n"
+               "  match designFir %s with\n  | .error err => (.error err)\n  | .ok hh => hilbertCtorTaps firtype (hilbertRealHilbert hh)\n" % (
+                   ", ".join(dargs), " ".join("(%s : %s)" % (v, lt) for v, lt in ps), " ".join(dargs)))
+    out.append("end Gen\nend Dsp\n")
+    return "\n".join(out)
+
+
+# ------------------------------------------------------------------------------------------
+# unit: CtorResample  (lib/resample/resample.cpp `IResampler::polyphase`; include/dsplib/utils.h `zeropad`; the constructors of
+#                      FIRDecimator, FIRInterpolator, FIRRateConverter)
+
+RESAMPLE_CTOR_TU = RESAMPLE_TU + '#include "resample/resample.cpp"\n'
+
+RESAMPLE_PINS = {
+    # arr_real flip(const arr_real& x) { arr_real r(x); std::reverse(r.begin(), r.end()); return r; }   (lib/utils.cpp)
+    "flip(arr_real)": ['5f5917a52b13a24f'],
+}
+
+
+def gen_free_fn(f, lname, doc, calls=None, fallible=False, fallible_fns=None, ret_lt=None):
+    """a free / static function over arrays and scalars -> (texts, StepTr).  Array parameters by const reference are read-only
+    arrays, array parameters BY VALUE are locals of the function; `bool` parameters are `Bool`s."""
+    tr = StepTr(members={}, single=True, user_calls=calls or steps_user_calls(), effect=False)
+    tr.bound = set()
+    tr.fallible = fallible
+    tr.fallible_fns = dict(fallible_fns or {})
+    args = []
+    for p_ in params_of(f):
+        lt = lean_type_of(qt(p_))
+        if kind_of_type(qt(p_)) == "bool":
+            lt = "Bool"
+        if lt is None or "*" in qt(p_) or ("&" in qt(p_) and "const" not in qt(p_)):
+            raise Unsupported("%s: parameter %s : %s" % (f.get("name"), p_.get("name"), qt(p_)))
+        v = tr.var(p_["name"])
+        if v in tr.bound:
+            raise Unsupported("%s: duplicate parameter name %s" % (f.get("name"), v))
+        if lt in ("Array α", "Array (Cx α)"):
+            if "&" in qt(p_):
+                tr.arrays[p_["name"]] = (v, lt)
+            else:
+                tr.local_arrays[p_["name"]] = (v, lt)
+                tr.local_const[p_["name"]] = "const" in qt(p_)
+        tr.bound.add(v)
+        tr.decl_order.append(v)
+        tr.types[v] = lt
+        args.append("(%s : %s)" % (v, lt))
+    tr.name_hint = lname
+    body = tr.stmts([body_of(f)], FALLOFF)
+    if FALLOFF in body or tr.pre or tr.writes or tr.uninit:
+        raise Unsupported("%s: unexpected shape (control reaches the end / effect / unassigned local)" % f.get("name"))
+    rt = ret_lt
+    texts = list(tr.aux_defs)
+    texts.append("/-- %s%s -/\ndef %s %s : %s :=\n%s\n" % (
+        doc, ": `.error` = the exception thrown" if fallible else "", lname, " ".join(args),
+        ("Except String (%s)" % rt) if fallible else rt, indent(body)))
+    return texts, tr
+
+
+def gen_ctor_resample():
+    classes = (
+        ("FIRDecimator", "firDecimCtor", {"h_": "std::vector<arr_real>", "d_": "arr_real", "decim_": "int", "sublen_": "int"},
+         "void (int, const arr_real &)", "void (int)"),
+        ("FIRInterpolator", "firInterpCtor", {"h_": "std::vector<arr_real>", "d_": "arr_real", "interp_": "int", "sublen_": "int"},
+         "void (int, const arr_real &)", "void (int)"),
+        ("FIRRateConverter", "firRateCtor", {"h_": "std::vector<arr_real>", "d_": "arr_real", "interp_": "int", "decim_": "int",
+                                             "sublen_": "int", "xidxs_": "std::vector<int>"},
+         "void (int, int, const arr_real &)", "void (int, int)"),
+    )
+    prefetch([(RESAMPLE_CTOR_TU, c[0]) for c in classes] + [(RESAMPLE_CTOR_TU, c[0] + "::" + c[0]) for c in classes] +
+             [(RESAMPLE_CTOR_TU, "IResampler::polyphase"), (RESAMPLE_CTOR_TU, "dsplib::zeropad"), (RESAMPLE_CTOR_TU, "IResampler"),
+              ('#include "utils.cpp"\n', "dsplib::flip")])
+    has_body = lambda d: any(c.get("kind") == "CompoundStmt" for c in d.get("inner", []))
+    out = [HEADER % "lib/resample/resample.cpp (`IResampler::polyphase`), include/dsplib/utils.h (`zeropad<real_t>`), lib/utils.cpp (`flip` — PINNED), "
+                    "lib/resample/fir-decimator.cpp, fir-interpolator.cpp, fir-rate-converter.cpp (constructors), include/dsplib/resample.h (members)",
+           "import DspVerif.Gen.StepsResample\n" + STEPS_HEAD[0], STEPS_HEAD[1]]
+    out.append("/-- `std::vector<T>(size_type n, const T& v)`: `n` copies of `v` (the `int` argument converts to `size_type`: a negative one is a huge\n"
+               "size and `std::vector` throws; here the empty vector) -/\n"
+               "def vecNew {β : Type} (n : Int) (v : β) : Array β := Array.replicate n.toNat v\n")
+    out.append("/-- `v.push_back(x)` / `v.emplace_back(x)` on a `std::vector`: `x` (a copy) is appended -/\n"
+               "def vecPush {β : Type} (v : Array β) (x : β) : Array β := v.push x\n")
+    pinned('#include "utils.cpp"\n', "dsplib::flip", lambda d: d.get("kind") == "FunctionDecl" and d.get("name") == "flip" and has_body(d) and
+           canon_type(qt(d)) == "arr_real (const arr_real &)", "flip(arr_real)", RESAMPLE_PINS, "flip(const arr_real&) of lib/utils.cpp")
+    out.append("/-- `arr_real flip(const arr_real& x)` of lib/utils.cpp (PINNED): a copy of `x`, then `std::reverse(r.begin(), r.end())` -/\n"
+               "def arrFlip {β : Type} (x : Array β) : Array β := x.reverse\n")
+    # --- zeropad<real_t>(const base_array<T>& x, int n)
+    zs = [t for t in clang_ast(RESAMPLE_CTOR_TU, "dsplib::zeropad") if t.get("kind") == "FunctionTemplateDecl" and t.get("name") == "zeropad"]
+    if len(zs) != 1:
+        raise Unsupported("function template zeropad not found")
+    zi = [c for c in zs[0]["inner"] if c.get("kind") == "FunctionDecl" and has_body(c) and
+          [canon_type(qt(a)) for a in c.get("inner", []) if a.get("kind") == "TemplateArgument"] == ["double"]]
+    zsig = "base_array<double> (const base_array<double> &, int)"
+    if len(zi) != 1 or canon_type(qt(zi[0])) != zsig:
+        raise Unsupported("instantiation zeropad<real_t> not found")
+    texts, ztr = gen_free_fn(zi[0], "zeropadR", "`base_array<T> zeropad(const base_array<T>& x, int n)` of include/dsplib/utils.h at `T = real_t`",
+                             fallible=True, ret_lt="Array α")
+    out += texts
+    # --- IResampler::polyphase(arr_real h, int m, real_t gain, bool flip_coeffs)
+    psig = "std::vector<arr_real> (arr_real, int, real_t, bool)"
+    pf = [d for d in clang_ast(RESAMPLE_CTOR_TU, "IResampler::polyphase") if d.get("kind") == "CXXMethodDecl" and d.get("name") == "polyphase" and
+          has_body(d) and canon_type(qt(d)) == psig]
+    if len(pf) != 1:
+        raise Unsupported("IResampler::polyphase(arr_real, int, real_t, bool) not found")
+    calls = steps_user_calls()
+
+    def flip_call(a, n):
+        if canon_type(qt(unwrap(n["inner"][0]))) != "arr_real (const arr_real &)" or len(a) != 1:
+            raise Unsupported("call of flip with signature %s" % qt(unwrap(n["inner"][0])))
+        return "(arrFlip %s)" % a[0]
+    calls["flip"] = flip_call
+    texts, ptr = gen_free_fn(pf[0], "polyphase", "`std::vector<arr_real> IResampler::polyphase(arr_real h, int m, real_t gain, bool flip_coeffs)` of lib/resample/resample.cpp",
+                             calls=calls, fallible=True, fallible_fns={"zeropad": {zsig: "zeropadR"}}, ret_lt="Array (Array α)")
+    out += texts
+    # default arguments of polyphase (declaration in resample.h)
+    for p_ in params_of(pf[0]):
+        dflt = [c for c in p_.get("inner", []) if c.get("kind") not in ("FullComment",)]
+        if dflt:
+            u = unwrap(dflt[0])
+            val = ("true" if u["value"] else "false") if u.get("kind") == "CXXBoolLiteralExpr" else CtorTr({}, user_calls=steps_user_calls()).e(dflt[0])
+            out.append("/-- default argument of the parameter `%s` of `IResampler::polyphase` -/\ndef polyphaseDefault_%s : %s := %s\n" % (
+                p_["name"], p_["name"], "Bool" if kind_of_type(qt(p_)) == "bool" else lean_type_of(qt(p_)), val))
+    # --- the constructors
+    irec = record(clang_ast(RESAMPLE_CTOR_TU, "IResampler"), "IResampler")
+    if [c for c in irec["inner"] if c.get("kind") == "FieldDecl"] or [c for c in irec.get("bases", [])]:
+        raise Unsupported("IResampler has data members / base classes")
+    for cls, lean, table, sig, dsig in classes:
+        rec = record(clang_ast(RESAMPLE_CTOR_TU, cls), cls)
+        if [canon_type(b.get("type", {}).get("qualType", "")) for b in rec.get("bases", [])] != ["IResampler"]:
+            raise Unsupported("%s: base classes are not just IResampler" % cls)
+        cdocs = [d for d in clang_ast(RESAMPLE_CTOR_TU, cls + "::" + cls) if d.get("kind") == "CXXConstructorDecl" and has_body(d) and not d.get("isImplicit")]
+        main = [d for d in cdocs if canon_type(qt(d)) == sig]
+        dele = [d for d in cdocs if canon_type(qt(d)) == dsig]
+        if len(main) != 1 or len(dele) != 1 or len(cdocs) != 2:
+            raise Unsupported("%s: constructors with a body found: %s" % (cls, [canon_type(qt(d)) for d in cdocs]))
+
+        def setup(tr):
+            tr.empty_bases.add("IResampler")
+            tr.fallible_fns = {"polyphase": {psig: "polyphase"}}
+        texts, tr = gen_ctor(rec, main[0], table, lean, cls, cls + "State", sig, emit_struct=False, setup=setup)
+        out += texts
+        # the delegating constructor: `C(args) : C(args, design_multirate_fir(p, q))`
+        dc = dele[0]
+        inits = [c for c in dc.get("inner", []) if c.get("kind") == "CXXCtorInitializer"]
+        bodyd = [c for c in body_of(dc).get("inner", []) if c.get("kind") != "NullStmt"]
+        if len(inits) != 1 or "anyInit" in inits[0] or "baseInit" in inits[0] or bodyd:
+            raise Unsupported("%s(%s) is not a delegating constructor with an empty body" % (cls, dsig))
+        ce = inits[0]["inner"][0]
+        while ce.get("kind") == "ExprWithCleanups":
+            ce = ce["inner"][0]
+        if not (ce.get("kind") == "CXXConstructExpr" and canon_type(ce.get("ctorType", {}).get("qualType", "")) == sig and
+                canon_type(strip_type(qt(ce))) == cls):
+            raise Unsupported("%s(%s) does not delegate to %s(%s)" % (cls, dsig, cls, sig))
+        dtr = CtorTr({}, user_calls=steps_user_calls())
+        ps = []
+        for p_ in params_of(dc):
+            v = dtr.var(p_["name"])
+            dtr.declare(v, lean_type_of(qt(p_)))
+            ps.append((v, lean_type_of(qt(p_))))
+        dargs = []
+        for a in ce["inner"]:
+            a_ = a
+            while a_.get("kind") in ("MaterializeTemporaryExpr", "CXXBindTemporaryExpr") or (a_.get("kind") == "ImplicitCastExpr" and a_.get("castKind") == "NoOp"):
+                a_ = a_["inner"][0]
+            if a_.get("kind") == "CallExpr" and Tr().callee_name(a_) == "design_multirate_fir":
+                if canon_type(qt(unwrap(a_["inner"][0]))) != "arr_real (int, int, int, real_t)" or len(a_["inner"]) != 5 or \
+                        [x.get("kind") for x in a_["inner"][3:]] != ["CXXDefaultArgExpr", "CXXDefaultArgExpr"]:
+                    raise Unsupported("%s(%s): call of design_multirate_fir is not `design_multirate_fir(p, q)` with the default hlen, astop" % (cls, dsig))
+                dargs.append("(designMultirateFir %s %s)" % (dtr.e(a_["inner"][1]), dtr.e(a_["inner"][2])))
+            else:
+                dargs.append(dtr.e(a_))
+        if dtr.pre or dtr.uses_trunc or not any(x.startswith("(designMultirateFir") for x in dargs):
+            raise Unsupported("%s(%s): unexpected arguments of the delegation" % (cls, dsig))
+        out.append("/-- `%s::%s(%s)`: delegates to `%s(%s)`.\n`designMultirateFir p q` = `design_multirate_fir(p, q)` with its default `hlen`, `astop` "
+                   "(NOT translated: a parameter; its meaning belongs to C11) -/\n"
+                   "def %sDesign (designMultirateFir : Int → Int → Array α) %s : Except String (%sState α) :=\n  %s %s\n" % (
+                       cls, cls, ", ".join("int " + v for v, _ in ps), cls, ", ".join(dargs),
+                       lean, " ".join("(%s : %s)" % (v, lt) for v, lt in ps), cls, lean, " ".join(dargs)))
+    out.append("end Gen\nend Dsp\n")
+    return "\n".join(out)
+
+
+# ------------------------------------------------------------------------------------------
 UNITS = {}
 
 
@@ -4985,11 +5626,16 @@ unit("CtorMedian", ["lib/medfilt.cpp", "include/dsplib/medfilt.h", "include/dspl
 unit("StepsSlice", ["include/dsplib/array.h", "include/dsplib/slice.h"])(gen_steps_slice)
 unit("StepsFir", ["lib/fir.cpp", "include/dsplib/fir.h"])(gen_steps_fir)
 unit("StepsDelay", ["include/dsplib/delay.h", "lib/hilbert.cpp", "include/dsplib/hilbert.h"])(gen_steps_delay)
+unit("CtorFir", ["include/dsplib/fir.h"])(gen_ctor_fir)
+unit("CtorDelay", ["include/dsplib/delay.h", "lib/hilbert.cpp", "include/dsplib/hilbert.h", "lib/math.cpp", "include/dsplib/keywords.h",
+                   "include/dsplib/array.h"])(gen_ctor_delay)
 unit("StepsSnr", ["lib/snr.cpp", "include/dsplib/math.h"])(gen_steps_snr)
 unit("StepsResample", ["lib/resample/fir-decimator.cpp", "lib/resample/fir-interpolator.cpp", "lib/resample/fir-rate-converter.cpp",
                        "include/dsplib/resample.h"])(gen_steps_resample)
 unit("CtorDyn", ["include/dsplib/audio/compressor.h", "include/dsplib/audio/limiter.h", "include/dsplib/audio/noise-gate.h",
                  "lib/agc.cpp", "lib/ma-filter.h", "include/dsplib/agc.h"])(gen_ctor_dyn)
+unit("CtorResample", ["lib/resample/fir-decimator.cpp", "lib/resample/fir-interpolator.cpp", "lib/resample/fir-rate-converter.cpp",
+                      "lib/resample/resample.cpp", "include/dsplib/resample.h", "include/dsplib/utils.h", "lib/utils.cpp"])(gen_ctor_resample)
 unit("StepsDyn", ["include/dsplib/audio/compressor.h", "include/dsplib/audio/limiter.h", "include/dsplib/audio/noise-gate.h",
                   "lib/agc.cpp", "lib/ma-filter.h", "include/dsplib/agc.h"])(gen_steps_dyn)
 
